@@ -8,7 +8,7 @@ from .common import ScriptedApp, build_request, token_body
 
 PROPERTY = "C19"
 LEVEL = "exploration"
-BUDGET = {"quick": 40, "thorough": 600}
+BUDGET = {"quick": 60, "thorough": 600}
 KINDS = ["plain_get", "plain_post", "expect_body", "expect_nobody", "expect_badcl", "expect_oversize",
          "expect_v10", "expect_chunked", "expect_dup", "expect_case"]
 EVIDENCE = {
